@@ -69,13 +69,36 @@ def gen_signature(r, first=None, allow_posonly=True):
     return parts, params
 
 
+HEADER_COMMENTS = [0.0]  # probability of a comment on / right after a definition header (see `header_comments`)
+
+
+class header_comments(object):
+    """context manager: generate definition headers that carry a trailing comment / are followed by a comment line"""
+
+    def __init__(self, p):
+        self.p = p
+
+    def __enter__(self):
+        self.old, HEADER_COMMENTS[0] = HEADER_COMMENTS[0], self.p
+
+    def __exit__(self, *a):
+        HEADER_COMMENTS[0] = self.old
+
+
 def render_header(r, kw, name, parts, ret, indent):
     pre = TAB * indent
     one = "%s%s %s(%s)%s:" % (pre, kw, name, ", ".join(parts), " -> %s" % ret if ret else "")
     if parts and (r.random() < 0.25 or len(one) > 100):
         inner = (",\n").join("%s%s%s" % (pre, TAB, p) for p in parts)
         trailing = "," if parts[-1] not in ("/",) and not parts[-1].startswith("**") and r.random() < 0.5 else ""
-        return "%s%s %s(\n%s%s\n%s)%s:" % (pre, kw, name, inner, trailing, pre, " -> %s" % ret if ret else "")
+        one = "%s%s %s(\n%s%s\n%s)%s:" % (pre, kw, name, inner, trailing, pre, " -> %s" % ret if ret else "")
+    if r.random() < HEADER_COMMENTS[0]:
+        # a comment on the header line itself, and/or a comment line between the header and the docstring / body
+        k = r.random()
+        if k < 0.6:
+            one += "  # %s" % irgen.rand_doc(r, 2, stop=False)
+        if k > 0.4:
+            one += "\n%s%s# %s" % (pre, TAB, irgen.rand_doc(r, 3, stop=False))
     return one
 
 
